@@ -40,10 +40,10 @@ static std::vector<FieldVals> boundaryTable() {
       {F_rlCostModel, {0, 3, 5}},
       {F_rlNbSteps, {-1, 0, 2}},
       {F_binSize, {0.99, 1.0, 25.0, 25.01}},
-      {F_lineReoptSize, {0, 1, 2, 64, 65}},
-      {F_lineReoptOverlap, {0, 1, 2}},
-      {F_diagReoptSize, {0, 1, 2, 64, 65}},
-      {F_diagReoptOverlap, {0, 1, 2}},
+      {F_lineReoptSize, {0, 1, 2, 3, 64, 65}},
+      {F_lineReoptOverlap, {0, 1, 2, 3}},
+      {F_diagReoptSize, {0, 1, 2, 3, 64, 65}},
+      {F_diagReoptOverlap, {0, 1, 2, 3}},
       {F_squareReoptSize, {0, 1, 2, 8, 9}},
       {F_squareReoptOverlap, {0, 1, 2, 3}},
       {F_unidimensionalTransport, {0, 1}},
@@ -91,7 +91,9 @@ static void enumerateAll(const std::function<void(const Spec &)> &f) {
   // pairs
   for (size_t i = 0; i < T.size(); ++i)
     for (size_t j = i + 1; j < T.size(); ++j) {
-      if (!gThorough && ((i * 7 + j) % 3 != 0)) continue;  // quick: a fixed third of the field pairs
+      auto reopt = [](int f) { return f == F_lineReoptSize || f == F_lineReoptOverlap || f == F_diagReoptSize || f == F_diagReoptOverlap || f == F_squareReoptSize || f == F_squareReoptOverlap; };
+      bool related = reopt(T[i].field) && reopt(T[j].field);  // window sizes and overlaps constrain each other: always paired
+      if (!gThorough && !related && ((i * 7 + j) % 3 != 0)) continue;  // quick: a fixed third of the other field pairs
       for (double v : T[i].vals)
         for (double w : T[j].vals) {
           Spec s = b;
